@@ -106,6 +106,13 @@ def report(ck, name, pair, o, projection, meta=None):
     if not o["diffs"]:
         ck.tally("outcome", "agree:" + ",".join(o.get("isteps") or ["-"]))
         return True
+    if o.get("cli_differs"):
+        rep["binary_output"] = (o.get("cli_output") or b"").decode("utf-8", "replace")
+        ck.violation("command line and library disagree: %s" % o["cli_differs"], rep)
+        return True
+    if o.get("api_failed"):
+        ck.violation("the library (patch.File.Apply) reports an error on an input every change of which applies: %s" % o["api_failed"][:200], rep)
+        return True
     atoms = r.get("atoms") or []
     a = analyse(o) if o.get("mtree") is not None else None
     if a is None:
